@@ -31,15 +31,112 @@ type Case struct {
 	Perturb string `json:"perturb"`
 	Warm    bool   `json:"warm"`
 	Salt    int    `json:"salt"`
+	Shape   string `json:"shape,omitempty"` // variant within a kind of the second block
 }
 
 var kinds = []string{"prodcons", "mutex-let", "mutex-global", "sync-instance", "defvar-defun", "printing", "exit-lock", "generic", "mutex-hash", "exit-lock-global", "range-close", "select", "hash-register", "resync", "select-drain"}
 
-func nCases(tier string) int {
+// The case list has two blocks: the first (firstBlock cases) cycles through
+// kinds, the second cycles through kinds2 (workloads whose routines all run
+// the same function objects). The first block is generated exactly as before
+// the second one existed, so that its cases stay the same.
+var kinds2 = []string{"shared-code", "shared-pipe", "req-reply", "tables"}
+
+var shapes2 = map[string][]string{"shared-code": {"defun", "lambda"}, "shared-pipe": {"pop", "range", "select"},
+	"req-reply": {"per-request", "per-client"}, "tables": {"own", "redefine", "daemons", "flavor-methods", "method-rounds"}}
+
+func firstBlock(tier string) int {
+	if os.Getenv("C17_BLOCK") == "2" { // development aid: second block only
+		return 0
+	}
 	if tier == "thorough" {
 		return 2400
 	}
 	return 210
+}
+
+// block2 and block3 give the sizes of the second and third block.
+func block2(tier string) int {
+	if tier == "thorough" {
+		return 480
+	}
+	return 48
+}
+
+func block3(tier string) int {
+	if tier == "thorough" {
+		return len(edges) + 16*len(kinds)
+	}
+	return len(edges) + len(kinds)
+}
+
+func nCases(tier string) int { return firstBlock(tier) + block2(tier) + block3(tier) }
+
+// gen2 makes case j of the second block. Cases come in groups of four (one
+// per kind); group a has GOMAXPROCS {16,4,2,1}[a%4]; groups 0-3 of every 12
+// are cold (the first call of every shared function happens concurrently: the
+// listed first-evaluation finding), the other 8 warm; perturbation and shape
+// rotate so that 16 groups meet every GOMAXPROCS x perturbation. Groups 0 and
+// 4 are fixed, seed-independent boundary programs (8 routines, 40 steps, all
+// processors, no perturbation, cold and warm).
+func gen2(r *rand.Rand, j int) Case {
+	c := Case{Kind: kinds2[j%len(kinds2)]}
+	if k := os.Getenv("C17_KIND"); k != "" {
+		c.Kind = k
+	}
+	a := j / len(kinds2)
+	c.Procs = []int{16, 4, 2, 1}[a%4]
+	c.Warm = (a/4)%3 != 0
+	sh := shapes2[c.Kind]
+	c.Shape = sh[(a+a/4+a/2)%len(sh)]
+	c.Perturb = perturbs[(a+a/4)%4]
+	c.N = 2 + r.IntN(7)
+	c.M = 5 + r.IntN(60)
+	c.Cap = []int{0, 1, 2, 8, 64}[r.IntN(5)]
+	if a == 0 || a == 4 {
+		c.N, c.M, c.Cap, c.Perturb = 8, 40, 2, "off"
+	}
+	c.Salt = 100000 + j
+	return c
+}
+
+var perturbs = []string{"off", "yield", "sleep", "prio"}
+
+// edges: fixed, seed-independent programs at the capacity edges of a channel:
+// a producer pushes exactly as many items as the buffer holds, one more, a
+// single item; unbuffered with one item; 2 routines (more consumers than
+// items), 3 and 8.
+var edges = func() (out []Case) {
+	n := 0
+	for _, kind := range []string{"prodcons", "range-close", "shared-pipe"} {
+		for _, cm := range [][2]int{{0, 1}, {1, 1}, {1, 2}, {2, 2}, {2, 3}, {8, 9}, {64, 64}, {64, 65}} {
+			c := Case{Kind: kind, Cap: cm[0], M: cm[1], N: []int{2, 8, 3}[n%3], Procs: []int{16, 4, 2, 1}[n%4], Perturb: "off", Warm: true, Salt: 200000 + n}
+			if kind == "shared-pipe" {
+				c.Shape = shapes2[kind][n%3]
+			}
+			out = append(out, c)
+			n++
+		}
+	}
+	return
+}()
+
+// gen3 makes case j of the third block: the capacity edges, then the kinds of
+// the first block under priority perturbation.
+func gen3(r *rand.Rand, j int) Case {
+	if j < len(edges) {
+		return edges[j]
+	}
+	j -= len(edges)
+	c := Case{Kind: kinds[j%len(kinds)]}
+	c.N = 2 + r.IntN(7)
+	c.M = 5 + r.IntN(60)
+	c.Cap = []int{0, 1, 2, 8, 64}[r.IntN(5)]
+	c.Procs = []int{1, 2, 4, 16}[(j+j/len(kinds))%4]
+	c.Perturb = "prio"
+	c.Warm = (j/len(kinds))%2 == 1
+	c.Salt = 300000 + j
+	return c
 }
 
 // selectDrainRounds: the stranding window is a few nanoseconds wide, so the
@@ -47,6 +144,11 @@ func nCases(tier string) int {
 func selectDrainRounds(c Case) int { return 2*c.M + 20 }
 
 func gen(r *rand.Rand, i int, tier string) Case {
+	if fb := firstBlock(tier); fb+block2(tier) <= i {
+		return gen3(r, i-fb-block2(tier))
+	} else if fb <= i {
+		return gen2(r, i-fb)
+	}
 	c := Case{Kind: kinds[i%len(kinds)]}
 	if k := os.Getenv("C17_KIND"); k != "" { // development aid: one workload kind only
 		c.Kind = k
@@ -72,7 +174,9 @@ var (
 	enterCount int64
 	perturbMu  sync.Mutex
 	perturbRnd *rand.Rand
-	perturbOn  atomic.Int32 // 0 off, 1 yield, 2 sleep
+	perturbOn  atomic.Int32 // 0 off, 1 yield, 2 sleep, 3 prio
+	prioSalt   atomic.Uint64
+	prioCalls  atomic.Uint64
 	pointsHit  int64
 )
 
@@ -96,7 +200,40 @@ func perturb() {
 		case 1:
 			time.Sleep(time.Duration(d) * time.Microsecond)
 		}
+	case 3:
+		// priority-based: every routine has a priority (a hash of its goroutine
+		// id and the current epoch); at each point a routine gives way as often
+		// as its priority is low, the lowest also sleeps; the priorities are
+		// drawn again at change points (every 512 points)
+		epoch := prioCalls.Add(1) / 512
+		h := goid()*0x9E3779B97F4A7C15 ^ prioSalt.Load() ^ epoch*0xBF58476D1CE4E5B9
+		h ^= h >> 29
+		switch prio := (h * 0x94D049BB133111EB >> 40) % 4; prio {
+		case 0:
+		case 3:
+			runtime.Gosched()
+			time.Sleep(20 * time.Microsecond)
+		default:
+			for k := uint64(0); k < prio; k++ {
+				runtime.Gosched()
+			}
+		}
 	}
+}
+
+// goid returns the id of the calling goroutine (from the first line of its
+// stack trace: "goroutine 123 [running]:").
+func goid() uint64 {
+	var buf [40]byte
+	n := runtime.Stack(buf[:], false)
+	var id uint64
+	for _, ch := range buf[len("goroutine "):n] {
+		if ch < '0' || '9' < ch {
+			break
+		}
+		id = id*10 + uint64(ch-'0')
+	}
+	return id
 }
 
 type enterFn struct{ slip.Function }
@@ -248,6 +385,14 @@ func program(c Case) (src string, warm string) {
 	u := fmt.Sprintf("c17k%d", c.Salt) // unique suffix for global names
 	var b strings.Builder
 	switch c.Kind {
+	case "shared-code":
+		return sharedCodeProgram(c, u)
+	case "shared-pipe":
+		return sharedPipeProgram(c, u)
+	case "req-reply":
+		return reqReplyProgram(c, u)
+	case "tables":
+		return tablesProgram(c, u)
 	case "prodcons":
 		// N producers, N consumers (at least 1), unique items p*100000+i
 		nc := 1 + c.N/2
@@ -484,7 +629,9 @@ func exec(x *fw.Ctx, c Case) {
 	perturbMu.Lock()
 	perturbRnd = rand.New(rand.NewPCG(uint64(x.Seed), uint64(c.Salt)+77))
 	perturbMu.Unlock()
-	perturbOn.Store(map[string]int32{"off": 0, "yield": 1, "sleep": 2}[c.Perturb])
+	perturbOn.Store(map[string]int32{"off": 0, "yield": 1, "sleep": 2, "prio": 3}[c.Perturb])
+	prioSalt.Store(uint64(x.Seed)*1000003 + uint64(c.Salt))
+	prioCalls.Store(0)
 	defer perturbOn.Store(0)
 	atomic.StoreInt64(&overlaps, 0)
 	atomic.StoreInt64(&enterCount, 0)
@@ -504,8 +651,13 @@ func exec(x *fw.Ctx, c Case) {
 		// definitions first, then one sequential call so that first-evaluation
 		// rewriting of compiled forms is out of the way
 		parts := strings.SplitN(src, "(let* ", 2)
+		if strings.Contains(src, mainMarker) {
+			parts = strings.SplitN(src, mainMarker, 2)
+		} else {
+			parts[1] = "(let* " + parts[1]
+		}
 		if _, err = sl.Eval(scope, parts[0]+"\n"+warm); err == nil {
-			res, err = sl.Eval(scope, "(let* "+parts[1])
+			res, err = sl.Eval(scope, parts[1])
 		}
 	} else {
 		res, err = sl.Eval(scope, src)
@@ -513,6 +665,9 @@ func exec(x *fw.Ctx, c Case) {
 	x.Cover("kind:" + c.Kind)
 	x.Cover(fmt.Sprintf("procs:%d", c.Procs))
 	x.Cover("perturb:" + c.Perturb)
+	if c.Shape != "" {
+		x.Cover(fmt.Sprintf("kind:%s shape=%s warm=%v", c.Kind, c.Shape, c.Warm))
+	}
 	x.CoverN("region-entries", int(atomic.LoadInt64(&enterCount)))
 	x.CoverN("verif-points-hit", int(atomic.SwapInt64(&pointsHit, 0)))
 	obs := map[string]any{"config": cfg}
@@ -529,6 +684,14 @@ func exec(x *fw.Ctx, c Case) {
 		obs["result"] = shown
 	}
 	switch c.Kind {
+	case "shared-code":
+		sharedCodeJudge(x, c, cfg, res)
+	case "shared-pipe":
+		sharedPipeJudge(x, c, cfg, res)
+	case "req-reply":
+		reqReplyJudge(x, c, cfg, res)
+	case "tables":
+		tablesJudge(x, c, cfg, res)
 	case "prodcons", "range-close", "select":
 		np := c.N - c.N/2
 		if c.Kind == "select" {
@@ -759,6 +922,19 @@ func exec(x *fw.Ctx, c Case) {
 	}
 }
 
+// caseTag goes in front of race, crash and hang signatures. Kinds of the
+// second block say cold or warm: first-evaluation rewriting of shared code is
+// a listed finding of cold cases only.
+func caseTag(c Case) string {
+	if c.Shape == "" || c.Shape == "own" {
+		return "kind=" + c.Kind
+	}
+	if c.Warm {
+		return "kind=" + c.Kind + "/warm"
+	}
+	return "kind=" + c.Kind + "/cold"
+}
+
 func init() {
 	fw.Register(fw.Spec[Case]{
 		ID: "C17",
@@ -772,7 +948,7 @@ func init() {
 		Init:             initWorker,
 		Race:             true,
 		Batch:            1,
-		Tag:              func(c Case) string { return "kind=" + c.Kind },
+		Tag:              caseTag,
 		HangSecs:         90,
 		CrashIsViolation: true,
 		Parallel:         8,
